@@ -19,6 +19,7 @@ var atoms = []string{
 	`AA = "x"`, `AA = /x+/`, `AA = $ID`, `AA = $NOPE`, `BB = "x"`, `BB = /[a/`, `BB = "w"`,
 	`start = AA ;`, `start = UU ;`, `start = "x" ;`, `start = "y" z ;`, `z = "y" ;`, `q = BB ;`,
 	`@left AA ;`, `@right AA ;`, `@left "y" ;`, `@none < z = "y" > ;`,
+	`start = AA BB ;`, `q = BB AA | BB ;`,
 }
 
 // The predefined patterns as the harness reads them (anchor: ebnf/parser Predefs): name -> pattern.
